@@ -37,6 +37,10 @@ def seeded():
         if not os.path.exists(mp):
             continue
         m = json.load(open(mp)); v = m.get("verification", {})
+        if m.get("obsolete"):
+            rows.append("| %s | %s | %s | %s | - | - | - | obsolete: %s |" % (os.path.basename(d), m.get("property"), (m.get("summary") or "").replace("|", "\\|")[:260],
+                        (m.get("needs") or "").replace("|", "\\|")[:120], m["obsolete"]))
+            continue
         tot += 1; det += 1 if (v.get("detected") or v.get("detected_by_related_check")) else 0
         clause = ""
         for l in v.get("check_violation_lines", []):
